@@ -17,6 +17,7 @@ def scripts(rng, quick):
     Q = lambda e, d: {'op': 'queue', 'ev': e, 'd': d}
     P, U, S = {'op': 'pause', 'ev': 0, 'd': 0}, {'op': 'unpause', 'ev': 0, 'd': 0}, {'op': 'stop', 'ev': 0, 'd': 0}
     A = lambda d: {'op': 'advance', 'ev': 0, 'd': d}
+    ST = {'op': 'start', 'ev': 0, 'd': 0}
     base = [
         [Q(1, 0), S],
         [Q(1, 0), Q(2, 0), S],
@@ -33,6 +34,13 @@ def scripts(rng, quick):
         [Q(1, 0), U, P, U],
         [S],
         [Q(2, 1), Q(1, 0), A(1), S],
+        # the client starts the runner itself: stop before start, start twice, pause before start
+        [ST, Q(1, 0), S],
+        [S, ST],
+        [S, ST, Q(1, 0)],
+        [Q(1, 0), ST, ST, S],
+        [P, ST, Q(1, 0), S],
+        [ST, S, ST],
     ]
     if not quick:
         ops = [Q(1, 0), Q(2, 1), Q(3, 2), P, U, A(1), A(2)]
